@@ -44,12 +44,12 @@ func OCIShapes() []NamedOCI {
 					{Destination: "/ctr/d0", Source: "/old", Options: []string{"rw"}},
 					{Destination: "/a//b/", Source: "/y"},
 				},
-				Hooks: &oci.Hooks{Prestart: []oci.Hook{{Path: "/old/prestart"}}, CreateRuntime: []oci.Hook{{Path: "/old/cr"}}, Poststop: []oci.Hook{{Path: "/old/ps"}}},
+				Hooks:       &oci.Hooks{Prestart: []oci.Hook{{Path: "/old/prestart"}}, CreateRuntime: []oci.Hook{{Path: "/old/cr"}}, Poststop: []oci.Hook{{Path: "/old/ps"}}},
 				Annotations: map[string]string{"a": "b"},
 				Linux: &oci.Linux{
-					Devices: []oci.LinuxDevice{{Path: "/dev/d0", Type: "c", Major: 1, Minor: 3}, {Path: "/dev/keep", Type: "b", Major: 8, Minor: 0, FileMode: fm(0o600), UID: u32(1), GID: u32(2)}},
-					Resources: &oci.LinuxResources{Devices: []oci.LinuxDeviceCgroup{{Allow: false, Access: "rwm"}, {Allow: true, Type: "c", Major: i64(1), Minor: i64(3), Access: "rw"}}},
-					IntelRdt:  &oci.LinuxIntelRdt{ClosID: "oldclos", L3CacheSchema: "old"},
+					Devices:    []oci.LinuxDevice{{Path: "/dev/d0", Type: "c", Major: 1, Minor: 3}, {Path: "/dev/keep", Type: "b", Major: 8, Minor: 0, FileMode: fm(0o600), UID: u32(1), GID: u32(2)}},
+					Resources:  &oci.LinuxResources{Devices: []oci.LinuxDeviceCgroup{{Allow: false, Access: "rwm"}, {Allow: true, Type: "c", Major: i64(1), Minor: i64(3), Access: "rw"}}},
+					IntelRdt:   &oci.LinuxIntelRdt{ClosID: "oldclos", L3CacheSchema: "old"},
 					Namespaces: []oci.LinuxNamespace{{Type: "pid"}},
 				},
 			}
@@ -68,10 +68,12 @@ func OddOCIShapes() []NamedOCI {
 		{"odd-paths", func() *oci.Spec {
 			return &oci.Spec{
 				Process: &oci.Process{Env: []string{"VAR_spec"}, User: oci.User{UID: 4294967295, GID: 4294967295, AdditionalGids: []uint32{0, 0, 4294967295}}},
-				Mounts:  []oci.Mount{{Destination: ""}, {Destination: "relative/path"}, {Destination: "/"}, {Destination: "//"}, {Destination: "/ctr/d0"}, {Destination: "/ctr/d0"}},
-				Hooks:   &oci.Hooks{Prestart: []oci.Hook{{}}, Poststop: nil},
+				Mounts: []oci.Mount{{Destination: ""}, {Destination: "relative/path"}, {Destination: "/"}, {Destination: "//"}, {Destination: "/ctr/d0"}, {Destination: "/ctr/d0"},
+					// other spellings of destinations the generated Specs mount to
+					{Destination: "/ctr/d0/"}, {Destination: "//ctr/spec"}, {Destination: "/ctr/./d1"}, {Destination: "/ctr2/d0/."}, {Destination: "/ctr/x/../spec"}, {Destination: "/ctr/all/"}, {Destination: "/ctr/env/"}},
+				Hooks: &oci.Hooks{Prestart: []oci.Hook{{}}, Poststop: nil},
 				Linux: &oci.Linux{
-					Devices:   []oci.LinuxDevice{{Path: ""}, {Path: "/dev/d0"}, {Path: "/dev/d0"}},
+					Devices:   []oci.LinuxDevice{{Path: ""}, {Path: "/dev/d0"}, {Path: "/dev/d0"}, {Path: "/dev/d0/"}, {Path: "//dev/spec"}, {Path: "/dev/./d00"}},
 					Resources: &oci.LinuxResources{Devices: []oci.LinuxDeviceCgroup{{Allow: true}, {Allow: false, Type: "a"}}},
 					IntelRdt:  &oci.LinuxIntelRdt{},
 				},
